@@ -94,12 +94,23 @@ func isClientActive() bool {
 }
 
 func processAllClients(op func(id int64, cs *clientState)) {
+	// op may take other locks (CLIENT LIST takes the database lock of the
+	// connection it runs on), and commands running under such a lock come
+	// here too (CLIENT LIST / KILL / UNBLOCK queued in a transaction): the
+	// client table is copied under its lock and op runs without it, or two
+	// connections would wait for each other for ever
 	clientsMu.Lock()
-	defer clientsMu.Unlock()
-
+	ids := make([]int64, 0, len(clients))
+	list := make([]*clientState, 0, len(clients))
 	for id, cs := range clients {
+		ids = append(ids, id)
+		list = append(list, cs)
+	}
+	clientsMu.Unlock()
+
+	for i, cs := range list {
 		if !cs.client.IsCloseRequested() {
-			op(id, cs)
+			op(ids[i], cs)
 		}
 	}
 }
